@@ -44,7 +44,7 @@ def run_one(args):
 jobs = []
 for p in sorted(glob.glob(f'/verif/variants/{pid}/*.patch')):
     jobs.append(('variant', os.path.basename(p)[:-6], p))
-for p in sorted(glob.glob(f'/verif/seeded/{pid}-[mnpqrs]*/patch.diff')):
+for p in sorted(glob.glob(f'/verif/seeded/{pid}-[mnpqrst]*/patch.diff')):
     jobs.append(('seeded', os.path.basename(os.path.dirname(p)), p))
 for p in sorted(glob.glob('/verif/variants/benign/*.patch')) + sorted(glob.glob('/verif/variants/refactor/*.patch')):
     jobs.append(('benign', os.path.basename(p)[:-6], p))
